@@ -9,3 +9,9 @@ pub mod common {
 pub mod f1 {
     include!("f1_alloc.rs");
 }
+pub mod f5 {
+    include!("f5_pure.rs");
+}
+pub mod f2 {
+    include!("f2_realloc.rs");
+}
